@@ -1,4 +1,5 @@
 import BsVerif.Model.Value
+import BsVerif.Lemmas.ValueBTree
 /-!
 # C06 — values shown are the values the program holds
 
@@ -437,6 +438,43 @@ theorem C06_array_elements_exact (rec : Rec) (el : Nat) (base : Option Nat) (f :
     ∀ j (hj : j < blocks.length), items[j]? = some (f (some ⟨blocks[j], base.map (· + (0 + j) * elSize)⟩)) := by
   rw [C06_vec elSize blocks h]
   exact parseItems_getElem rec el elSize base f hrec blocks 0
+
+/-! ## BTreeMap / BTreeSet: the walk is the in-order traversal -/
+
+/-- **C06_btree_inorder**: for every type-graph markup, every memory and every well-formed B-tree image of ANY height
+    (up to 62; a real tree of height 62 has more than 6^62 entries) rooted at `p` — `TreeOK`: each node's `len`, `parent`,
+    `parent_idx` and edges are consistent, keys/vals arrays hold `len` entries — `first_leaf_edge` reaches the first leaf
+    and `KVIterator` yields exactly the in-order sequence of (key image, value image) pairs (child 0, entry 0, child 1,
+    …, child len; recursively), nothing missing, duplicated or invented, and then stops.  (Lemmas/ValueBTree.lean) -/
+theorem C06_btree_inorder (c : Ctx) (lm : LeafMarkup) (im : InternalMarkup) (ks vs H p : Nat) (hH : H ≤ 62)
+    (ht : TreeOK c lm im ks vs H p none 0) (hfuel : (inorder c lm im ks vs H p).length < btFuel) :
+    descend c lm im 64 (nodeAt c lm im H p) = some (firstLeaf c lm im H p) ∧
+    btCollect c lm im ks vs btFuel (firstLeaf c lm im H p) 0 = some (inorder c lm im ks vs H p) :=
+  btree_walk_inorder c lm im ks vs H p hH ht hfuel
+
+/-- a root that is a leaf (maps of ≤ 11 entries): entries `idx…len-1` in order -/
+theorem C06_btree_leaf_walk (c : Ctx) (lm : LeafMarkup) (im : InternalMarkup) (ks vs : Nat) (n : Node)
+    (h0 : n.height = 0) (hp : n.leaf.parent = none)
+    (hk : ks * n.leaf.len ≤ n.leaf.keys.length) (hv : vs * n.leaf.len ≤ n.leaf.vals.length)
+    (hlen : n.leaf.len < btFuel) :
+    btCollect c lm im ks vs btFuel n 0 =
+      some ((List.range n.leaf.len).map fun j => (n.leaf.kd ks (0 + j), n.leaf.vd vs (0 + j))) :=
+  btCollect_leaf c lm im ks vs n h0 hp hk hv n.leaf.len 0 btFuel (by omega) (by omega)
+
+/-! non-vacuity of `TreeOK` (and a test of the walk) -/
+
+/-- a one-leaf tree image at address 1000: parent = null, parent_idx = 0, len = 2, keys [7, 9], values [70, 90] -/
+def exG : Graph := fun i => if i = 10 then some (.scalar none [] (some 8) (some 7)) else if i = 11 then some (.scalar none [] (some 2) (some 7))
+  else if i = 12 then some (.scalar none [] (some 2) (some 7)) else none
+def exMem : Nat → Nat → Option Bytes := fun a n =>
+  if a = 1000 ∧ n = 16 then some [0, 0, 0, 0, 0, 0, 0, 0, 0, 0, 2, 0, 7, 9, 70, 90] else none
+def exC : Ctx := ⟨exG, exMem, 89⟩
+def exLm : LeafMarkup := ⟨⟨some (some 0), none, some 10⟩, ⟨some (some 8), none, some 11⟩, ⟨some (some 10), none, some 11⟩,
+  ⟨some (some 12), none, some 12⟩, ⟨some (some 14), none, some 12⟩, 16⟩
+def exIm : InternalMarkup := ⟨⟨some (some 0), none, some 10⟩, ⟨some (some 0), none, some 10⟩, 16⟩
+
+example : TreeOK exC exLm exIm 1 1 0 1000 none 0 := ⟨_, rfl, rfl, rfl, rfl, ⟨by decide, by decide⟩⟩
+example : (inorder exC exLm exIm 1 1 0 1000).map (fun kv => (kv.1.bytes, kv.2.bytes)) = [([7], [70]), ([9], [90])] := by decide
 
 /-! ## Collections show exactly their elements -/
 
